@@ -631,6 +631,10 @@ func Generate(t *rapid.T, cfg Cfg) *Layout {
 				tf := g.pickOtherDoc(root)
 				td := g.doc(tf)
 				tk := fmt.Sprintf("/t%d", i)
+				if g.chance(2, "tpltarget") {
+					tk += "/{id}" // a templated key: the pointer has to name it exactly, variable name included
+					g.feat["form:pathitem-ext-fragment-templated"]++
+				}
 				td["paths"].(M)[tk] = g.object("pathItem", tf, depth-1)
 				paths[key] = M{"$ref": g.relSpelling(root, tf) + "#/paths/" + esc(tk)}
 				g.feat["form:pathitem-ext-fragment"]++
